@@ -121,6 +121,42 @@ pub fn inputs(seed: u64, tier: Tier) -> Vec<In> {
             }
         }
     }
+    // stored chunks in mid-stream (with and without dictionary reset, 1..9 bytes) followed by copies that reach into them
+    // (valid), just before them across a dictionary reset (invalid: the verdict and what has been delivered by then must
+    // not depend on whether the stored chunk happened to be visible in one piece), and by a later framing error
+    {
+        let head = |n: u8| Chunk::C { class: 3, props: (3, 0, 2), prog: (1..=n).map(Sym::L).chain([Sym::M(5, 3)]).collect() };
+        for ulen in [1usize, 2, 3, 9] {
+            let data: Vec<u8> = (0..ulen).map(|i| 0x70 + i as u8).collect();
+            for reset in [true, false] {
+                let tails: Vec<(&str, Chunk)> = vec![
+                    ("copy from inside the stored chunk", Chunk::C { class: 2, props: (3, 0, 2), prog: vec![Sym::M(ulen as u32, 3), Sym::L(0x42)] }),
+                    ("copy reaching one byte before the stored chunk", Chunk::C { class: 2, props: (3, 0, 2), prog: vec![Sym::M(ulen as u32 + 1, 2), Sym::L(0x42)] }),
+                    ("copy reaching far before the stored chunk", Chunk::C { class: 2, props: (0, 0, 0), prog: vec![Sym::L(0x41), Sym::M(ulen as u32 + 6, 4)] }),
+                    ("inherited state, rep0 copy", Chunk::C { class: 0, props: (0, 0, 0), prog: vec![Sym::R(0, 2), Sym::L(0x43)] }),
+                    ("inherited state, short rep", Chunk::C { class: 1, props: (0, 0, 0), prog: vec![Sym::L(0x44), Sym::M(ulen as u32 + 2, 2)] }),
+                ];
+                for (what, tail) in tails {
+                    for lead in [vec![head(6)], vec![Chunk::U { reset: true, data: b"lead".to_vec() }, head(3)]] {
+                        let mut cs = lead.clone();
+                        cs.push(Chunk::U { reset, data: data.clone() });
+                        cs.push(tail.clone());
+                        let w = lzma2::write(&cs);
+                        let label = format!("lzma2 [{}] ({})", lzma2::chunks_str(&cs), what);
+                        all.push(In { label: label.clone(), fmt: Fmt::Lzma2, opts: Opts::default(), bytes: w.bytes.clone() });
+                        // the same followed by an illegal control byte instead of the end byte
+                        let mut bad = w.bytes.clone();
+                        let l = bad.len();
+                        bad[l - 1] = 0x03;
+                        bad.extend_from_slice(&[0, 0, 0]);
+                        all.push(In { label: format!("{} then control byte 0x03", label), fmt: Fmt::Lzma2, opts: Opts::default(), bytes: bad });
+                        let f = XzFile { check_id: 1, blocks: vec![Block { payload: w.bytes.clone(), plain: w.expect.clone(), ..Default::default() }], ..Default::default() };
+                        all.push(In { label: format!("xz block with {}", label), fmt: Fmt::Xz, opts: Opts::default(), bytes: xz::build(&f).0 });
+                    }
+                }
+            }
+        }
+    }
     // invalid XZ files whose enclosing CRCs are CORRECT (only the field's own validation can object): padding bytes,
     // sizes, counts - decisions that are taken from the currently visible buffer
     {
